@@ -220,7 +220,8 @@ PROPS["C05"] = dict(
          "empty sequences at random positions, key universe 1..100000 (mostly tiny: heavy ties), "
          "sometimes identical last elements, and a length in {0,1,total-1,total,random}. Every shape is "
          "merged by all 4 algorithms x stable/unstable x sentinel/plain entry points for an 8-byte "
-         "(copy tree), a 32-byte (pointer tree) and a heap-owning element type; elements carry "
+         "(copy tree), a 32-byte (pointer tree), a heap-owning and a 16-byte heap-owning, ledger-registered (copy tree with "
+         "non-trivial elements) element type; elements carry "
          "(seq,pos) so the output is compared with the stable reference merge: keys position by "
          "position, per-sequence prefix property, exact (seq,pos) for stable variants, returned end, "
          "advanced begins, untouched ends/inputs/sentinel slots, canary behind the output. A class "
